@@ -23,6 +23,7 @@ import (
 	"github.com/influxdata/influxdb"
 	"github.com/influxdata/influxdb/models"
 	"github.com/influxdata/influxdb/uuid"
+	originql "github.com/influxdata/influxql"
 	jsoniter "github.com/json-iterator/go"
 	"github.com/openGemini/openGemini/engine/hybridqp"
 	compression "github.com/openGemini/openGemini/lib/compress"
@@ -766,6 +767,28 @@ func (h *Handler) requireAdmin(w http.ResponseWriter, user meta2.User, op string
 		return false
 	}
 	return true
+}
+
+// requireRepositoryRead refuses the request unless authentication is disabled or the user may read (or write)
+// the repository, the rule SHOW statements follow for a database.
+func (h *Handler) requireRepositoryRead(w http.ResponseWriter, user meta2.User, repository string, op string) bool {
+	if !h.Config.AuthEnabled {
+		return true
+	}
+	if user == nil {
+		h.httpError(w, "error authorizing "+op+": create admin user first or disable authentication", http.StatusForbidden)
+		return false
+	}
+	if !canSeeRepository(user, repository) {
+		h.httpError(w, "error authorizing "+op+": user is not authorized on repository "+repository, http.StatusForbidden)
+		h.Logger.Error("not authorized", zap.String("op", op), zap.String("userID", user.ID()))
+		return false
+	}
+	return true
+}
+
+func canSeeRepository(user meta2.User, repository string) bool {
+	return user.AuthorizeDatabase(originql.ReadPrivilege, repository) || user.AuthorizeDatabase(originql.WritePrivilege, repository)
 }
 
 func (h *Handler) serveBackupRun(w http.ResponseWriter, r *http.Request, user meta2.User) {
